@@ -585,7 +585,7 @@
        ((%complex? num)
         (let ((real (real-part num))
               (imag (imag-part num)))
-          (string-append (number->string real d) (if (negative? imag) "-" "+")
+          (string-append (number->string real d) (if (negative? imag) "" "+")
                          (number->string imag d) "i")))
        ((inexact? num)
         (string-append "#i" (number->string (inexact->exact num) d)))
